@@ -274,7 +274,7 @@ pub fn real_sequence(rng: &mut Rng) -> &'static str {
     let s = if rng.chance(2, 3) {
         let head = *rng.pick(OSC);
         let more = if rng.chance(1, 2) { *rng.pick(&[";some more payload", "zz", "0123456789abcdef", " x", "字"]) } else { "" };
-        let more = if more == " x" { "_x" } else { more }; // no space inside a sequence (KF-1a)
+        let more = more.replace(' ', "_"); // no space inside a sequence (that is the KF-1a class)
         let head = head.replace(' ', "_");
         format!("\x1b]{}{}{}", head, more, if rng.chance(1, 2) { "\x07" } else { "\x1b\\" })
     } else {
